@@ -350,6 +350,7 @@ class SimpleCorrelator(AbstractCorrelator):
                 )
                 if segment_status:
                     segment_status.status[str(seq_num)] = STATUS_EXPIRED
+                    self._segment_status_store[str(ref_num)] = segment_status  # persist the update
                     if self.get_cumulated_status(ref_num) == STATUS_EXPIRED:
                         await self.hook.send_error(
                             segment_status.orig_submit_sm, _EXPIRED_ERROR, self.client_id
@@ -377,8 +378,8 @@ class SimpleCorrelator(AbstractCorrelator):
                     segment_status = SegmentStatus(
                         {str(num): STATUS_SENDING for num in range(1, total_segments + 1)}, smpp_message
                     )
-                    self._segment_status_store[key] = segment_status
                 segment_status.status[str(seq_num)] = STATUS_SENDING
+                self._segment_status_store[key] = segment_status  # persist the update
 
     async def put_delivery(self, smsc_message_id: str, submit_sm: SubmitSm) -> None:
         await self._remove_expired()
@@ -437,6 +438,7 @@ class SimpleCorrelator(AbstractCorrelator):
                             else:
                                 segment_status.status[str(seq_num)] = STATUS_FAILED
                                 segment_status.last_response = response
+                        self._segment_status_store[str(ref_num)] = segment_status  # persist the update
         await self._remove_expired()
         return smpp_message
 
@@ -469,6 +471,7 @@ class SimpleCorrelator(AbstractCorrelator):
                 segment_status.status[str(seq_num)] = error_code
                 if error_code > 0 or not segment_status.last_receipt:
                     segment_status.last_receipt = receipt
+                self._segment_status_store[str(ref_num)] = segment_status  # persist the update
         await self._remove_expired()
         return submit_sm
 
